@@ -40,6 +40,8 @@ META = {'design_ref': 'DESIGN.md section 7 / C05',
  'level_text': 'Coq theorems for every state: QoS 1 publish surfaces once and queues exactly one PUBACK(id) at the back of the high-priority queue; QoS 2 '
                'first delivery surfaces and is remembered, a duplicate of an unreleased id is acknowledged but not surfaced, PUBREL releases the id and queues '
                'PUBCOMP; the set survives connection close (C05_close_keeps_inbound_qos2) and a session-present CONNACK and is forgotten by a session-absent '
-               'CONNACK (C05_session_decides_memory); ack order on the wire is the monitor mon_c05_acks on the implementation trace',
+               'CONNACK (C05_session_decides_memory); ack order on the wire and exactly-once surfacing over whole histories (a QoS 2 id received and not yet released is never surfaced again, also across '
+               'session-resuming reconnects; every other publish is surfaced once, in wire order) are the monitors mon_c05_acks / mon_c05_deliver on the '
+               'implementation trace, against a simulated broker that keeps its inbound QoS 2 session state and retransmits unreleased publishes',
  'technique': 'machine-checked proof in Coq over the engine model + lock-step correspondence of the extracted model with the implementation + extracted '
               'monitors on the implementation trace'}
